@@ -82,6 +82,8 @@ M = [
     ("C18_ucinewgame_keeps_memory_of_running_search", "weechess-engine/src/uci.rs",
      "                    if let Some(search) = current_search.take() {\n                        search.wait_cancel();\n                    }\n\n                    // A new game must not inherit the search memory of the previous one\n                    previous_artifact = None;",
      "                    previous_artifact = None;\n                    if let Some(search) = current_search.take() {\n                        previous_artifact = Some(search.wait_cancel());\n                    }"),
+    ("C17_history_lookup_ignores_the_lowest_key_bit", "weechess-engine/src/searcher.rs",
+     "        self.states.get(hash)\n", "        self.states.get(&(*hash | 1)).or_else(|| self.states.get(&(*hash & !1)))\n"),
     ("C15_access_stores_under_shifted_key", "weechess-engine/src/searcher.rs",
      "        self.tables[index].write().unwrap().insert(hash, entry);", "        self.tables[index].write().unwrap().insert(hash >> 7, entry);"),
 ]
